@@ -222,8 +222,10 @@ fn make_base(prof: &Profile, seed: u64, i: usize, real: Option<&mut dyn Write>) 
     let universe = *rng.pick(&[4u64, 8, 12, 16, 24, 32, 64, 200]);
     let universe = if prof.gen == "saturate" { 4096 } else { universe };
     let kind = *rng.pick(gen::PLAN_KINDS);
-    // elements displaced by whole groups are what an in-place rehash relocates
-    let kind = if prof.name == "entry-sat" && rng.chance(2, 3) { *rng.pick(&["cluster", "groupstride", "postag", "lsbtwins"]) } else { kind };
+    // spread-out homes: some keys find an EMPTY bucket first although the table is tombstone-saturated
+    let kind = if prof.name == "entry-sat" && rng.chance(2, 3) { "mixed" } else { kind };
+    let scripted = prof.name == "entry-sat" && rng.chance(1, 4);
+    let kind = if scripted { "sequential" } else { kind };
     let steps = match prof.gen {
         "saturate" => prof.steps.unwrap_or(150 + rng.below(250) as usize),
         _ => prof.steps.unwrap_or(20 + rng.below(200) as usize),
@@ -258,6 +260,9 @@ fn make_base(prof: &Profile, seed: u64, i: usize, real: Option<&mut dyn Write>) 
     }
     let mut g = gen::Gen::new(rng.next(), universe, prof.gen);
     g.variant = prof.name;
+    if scripted {
+        g.script = gen::stale_slot_script(&mut rng);
+    }
     let mut ops = Vec::new();
     let mut counters = Vec::new();
     let mut inplace = Vec::new();
